@@ -21,22 +21,24 @@ Theorem C36_expanded_comment_kept : forall n ms cenv ctx st t,
 Proof. exact comment_arm_expanded. Qed.
 Print Assumptions C36_expanded_comment_kept.
 
-(* compressed: EVERY comment is dropped, also those starting with `!` *)
-Theorem C36_compressed_drops_all : forall n ms cenv ctx st t,
-  eval_item (S n) ms true cenv ctx st (SComment t) = Ok st.
-Proof. exact comment_arm_compressed. Qed.
-Print Assumptions C36_compressed_drops_all.
-
-(* F28: the statement's compressed clause is false of the faithful model *)
-Theorem C36_refuted_compressed_bang : exists p,
-  existsb is_bang (comments_in (reach_program FUEL p)) = true
-  /\ exists o, compile FUEL Compressed p = Ok (o, 0%nat) /\ comments_of o = [].
+(* compressed (rsass 775eadf): a comment is kept exactly when its text starts with `!` -
+   the statement's compressed clause, at full strength, for every comment text *)
+Theorem C36_compressed_bang : forall n ms cenv ctx st t,
+  (starts_bang t = false -> eval_item (S n) ms true cenv ctx st (SComment t) = Ok st)
+  /\ (starts_bang t = true ->
+      exists st', eval_item (S n) ms true cenv ctx st (SComment t) = Ok st'
+        /\ ncom_state (d_frames st') (d_root st') = S (ncom_state (d_frames st) (d_root st))
+        /\ d_lost st' = d_lost st).
 Proof.
-  exists bang_witness. destruct refuted_bang as [H1 H2]. split.
-  - rewrite H2. reflexivity.
-  - eexists. split; [exact H1 | vm_compute; reflexivity].
+  intros. split; [apply comment_arm_compressed_drop | apply comment_arm_compressed_bang].
 Qed.
-Print Assumptions C36_refuted_compressed_bang.
+Print Assumptions C36_compressed_bang.
+
+(* `/*! keep */ a{b:c}` keeps its comment in compressed output *)
+Theorem C36_bang_example : exists o, compile FUEL Compressed bang_witness = Ok (o, 0%nat)
+  /\ comments_of o = [[33;32;107;101;101;112;32]].
+Proof. exact bang_kept. Qed.
+Print Assumptions C36_bang_example.
 
 (* the writer emits a one-line comment verbatim between `/*` and `*/`, both styles *)
 Theorem C36_writer_keeps_comments : forall s ind t b,
